@@ -157,13 +157,16 @@ Proof.
     rewrite Ec; cbn [bind]. destruct (p c); eauto.
 Qed.
 
-Lemma n0_scan_ok (pc : list bclass) ecls not_e pe : length pc = k ->
-  forall idxs fe fn, incl idxs S -> exists r, n0_scan pc ecls not_e pe idxs fe fn = Ok r.
+Lemma n0_scan_ok (lg : bool) (oc pc : list bclass) ecls not_e pe : length oc = k -> length pc = k ->
+  forall idxs fe fn, incl idxs S -> exists r, n0_scan lg oc pc ecls not_e pe idxs fe fn = Ok r.
 Proof.
-  intros Hv. induction idxs as [|j rest IH]; intros fe fn Hin; cbn [n0_scan].
+  intros Ho Hv. induction idxs as [|j rest IH]; intros fe fn Hin; cbn [n0_scan].
   - eauto.
   - apply incl_cons_l in Hin as [Hj Hrest].
     destruct (pe <=? j); [eauto|].
+    destruct (get_ok 326 oc j) as (o & Eo); [rewrite Ho; auto|].
+    rewrite Eo; cbn [bind].
+    destruct (removed_by_x9 o && negb lg); [eauto|].
     destruct (get_ok 325 pc j) as (c & Ec); [rewrite Hv; auto|].
     rewrite Ec; cbn [bind].
     destruct (if c =c ecls then (true, fn)
@@ -468,7 +471,7 @@ Proof.
   rewrite first_char_len_U32 by lia. cbn [bind].
   destruct (iter_forwards_ok (irs_runs sq) (bp_start p + 1) (bp_start_run p) rs Hns ltac:(lia)) as (fw & Efw & Ifw).
   rewrite Efw; cbn [bind].
-  destruct (n0_scan_ok S k HSk pc ecls not_e (bp_end p) Hpc fw false false Ifw) as ([fe fn] & Esc).
+  destruct (n0_scan_ok S k HSk false oc pc ecls not_e (bp_end p) Hoc Hpc fw false false Ifw) as ([fe fn] & Esc).
   rewrite Esc; cbn [bind].
   destruct (iter_backwards_ok (irs_runs sq) (bp_start p) (bp_start_run p) rs Hns ltac:(lia)) as (bw & Ebw & Ibw).
   match goal with |- exists pc', bind ?X _ = _ /\ _ => assert (Hcts : exists cts, X = Ok cts) end.
